@@ -5,5 +5,5 @@ Extraction Language OCaml.
 Extraction "model.ml" base_anchor
   wire_id enc_frame enc_stream dec_frame dec_frame_orig dec_stream dec_stream_orig
   c19_reader_ok body_log body_returns req_pseudo res_pseudo map_headers hframes msg_frames
-  frame_eqb list_eqb perm_b keyb key_eqb mkey msg_okb msg_pseudo_okb msg_headers_okb msg_data_okb keys_distinctb c19_stream_ok c19_passthrough_ok
+  frame_eqb list_eqb perm_b keyb key_eqb mkey msg_okb msg_pseudo_okb msg_headers_okb msg_data_okb keys_distinctb c19_subscriber_ok c19_stream_ok c19_passthrough_ok
   ts_okb find_ts first_diff mt_request mt_response.
